@@ -377,7 +377,9 @@ type Case struct {
 // "inv-line-period": issue_date = Date and the probed line covers a period of
 // its own (the Decoy day): a line's period describes the supply, it is not a
 // tax date
-var vias = []string{"value", "inv-issue", "inv-issue-op", "inv-value", "inv-credit-preceding", "inv-foreign-east", "inv-foreign-west", "inv-line-period"}
+// "inv-value-only": value_date = Date and no issue_date at all (the issue
+// date is filled in with today): the tax date is the value date
+var vias = []string{"value", "inv-issue", "inv-issue-op", "inv-value", "inv-value-only", "inv-credit-preceding", "inv-foreign-east", "inv-foreign-west", "inv-line-period"}
 
 // issuerFor gives the country and currency of the issuing regime of a foreign route.
 func issuerFor(via, own string) (string, string) {
@@ -767,6 +769,8 @@ func invoiceJSON(rr rateRef, c Case) []byte {
 	case "inv-value":
 		doc["issue_date"] = c.Decoy
 		doc["value_date"] = c.Date
+	case "inv-value-only":
+		doc["value_date"] = c.Date
 	case "inv-credit-preceding":
 		doc["issue_date"] = c.Date
 		doc["type"] = "credit-note"
@@ -889,7 +893,7 @@ func judge(c Case, o *vh.Obs) {
 		return
 	}
 	invoice := c.Via != "value"
-	if invoice && c.Via != "inv-issue" && !strings.HasPrefix(c.Via, "inv-foreign") {
+	if invoice && c.Via != "inv-issue" && c.Via != "inv-value-only" && !strings.HasPrefix(c.Via, "inv-foreign") {
 		if _, ok := parseDay(c.Decoy); !ok {
 			o.Discard()
 			return
@@ -1250,7 +1254,7 @@ func judgeUnpublished(c TableCase, o *vh.Obs) {
 func init() {
 	vh.Describe(
 		"Oracle = published tables data/regimes/*.json only: applicable values are those whose tags intersect the document tags (when tagged) and whose ext is contained in the combo's ext (when qualified); the answer is the applicable value with the greatest since <= tax date (undated = minus infinity, a value is in force ON its start date); none => nil / calculation error; exempt key => no percentage; equal start dates: a qualified value beats an unqualified one (class tie:qualified-beats-unqualified, own signature), other ties with different percentages only assert membership. "+
-			"Observed through tax.RateDef.Value on the registered regime and through the last line of an invoice built as JSON (preceded by sibling lines and charges with the same category and rate key and every other extension set the rate publishes, and none), parsed by gobl.Parse and calculated, with the tax date as issue_date, as issue_date next to a decoy op_date, as value_date overriding a decoy issue_date, as the issue_date of a credit note whose preceding document carries a decoy issue date, as the issue_date of an invoice whose probed line covers a period of its own on a decoy day, and as the issue_date of an invoice of another regime far to the east (AE / IN) or west (MX / CO) whose combos name this regime's country; half of the invoice cases carry a stale input percent/surcharge that must be replaced; in two fifths of the sampled cases (and at every boundary through the issue date) the probed line is worth nothing (a free item, or a 100% line discount) and must still get the table value. "+
+			"Observed through tax.RateDef.Value on the registered regime and through the last line of an invoice built as JSON (preceded by sibling lines and charges with the same category and rate key and every other extension set the rate publishes, and none), parsed by gobl.Parse and calculated, with the tax date as issue_date, as issue_date next to a decoy op_date, as value_date overriding a decoy issue_date, as value_date of an invoice without any issue_date (filled in with today), as the issue_date of a credit note whose preceding document carries a decoy issue date, as the issue_date of an invoice whose probed line covers a period of its own on a decoy day, and as the issue_date of an invoice of another regime far to the east (AE / IN) or west (MX / CO) whose combos name this regime's country; half of the invoice cases carry a stale input percent/surcharge that must be replaced; in two fifths of the sampled cases (and at every boundary through the issue date) the probed line is worth nothing (a free item, or a 100% line discount) and must still get the table value. "+
 			"boundaries (exhaustive): every published regime file x category x rate key x {since-1, since, since+1 of every value} + {0001-01-01, "+today+", 9999-12-31} x ext variants (none, each qualifier exactly / plus an unrelated pair / value altered, unrelated only) x tag variants (none, unrelated, each table tag) x 4 observation routes. random: arbitrary dates 0001..9999 (40% within 3 or 400 days of a start date, 40% 1985-2035, 20% anywhere), same variants, random decoys. tables: per published rate, strictly descending start dates with the undated value last among unqualified values and inside each identically-qualified group, and the registered Go table equal to the published one value by value; unpublished: every registered rate exists in the published files. "+
 			"Non-trivial: the date is within one day of a published start date, or before the first applicable value, or a qualified value competes with an applicable unqualified one (tables: more than one value).",
 		"data/regimes/*.json in the tree under test are the referee; the Go tables are only ever observed",
